@@ -1,0 +1,295 @@
+//! Verification hooks. Compiled only with `--cfg saito_verif`; never part of a normal build.
+//!
+//! * `RwLock` is a drop-in replacement for `tokio::sync::RwLock` which records every
+//!   acquisition attempt / acquisition / release (task, lock rank, mode, call site) into an
+//!   in-memory log so that an external checker can decide lock-ordering properties.
+//! * `validate_begin` / `validate_step` count the Wind/Unwind dispatches of
+//!   `Blockchain::validate` and turn a livelock into a deterministic panic.
+use std::any::type_name;
+use std::fmt::{Debug, Formatter};
+use std::future::Future;
+use std::ops::{Deref, DerefMut};
+use std::panic::Location;
+use std::sync::atomic::{AtomicBool, AtomicU64, Ordering};
+use std::sync::Mutex;
+
+pub const EV_TRY: u8 = 0;
+pub const EV_ACQUIRED: u8 = 1;
+pub const EV_RELEASED: u8 = 2;
+
+#[derive(Clone, Debug)]
+pub struct LockEvent {
+    pub seq: u64,
+    pub task: u64,
+    pub kind: u8,
+    pub write: bool,
+    pub rank: u8,
+    pub lock_id: u64,
+    pub file: &'static str,
+    pub line: u32,
+}
+
+static SEQ: AtomicU64 = AtomicU64::new(0);
+static NEXT_LOCK_ID: AtomicU64 = AtomicU64::new(1);
+static ENABLED: AtomicBool = AtomicBool::new(false);
+// 0 = no delays. otherwise a delay is injected before roughly 1 in DELAY_ONE_IN acquisitions.
+static DELAY_ONE_IN: AtomicU64 = AtomicU64::new(0);
+static DELAY_STATE: AtomicU64 = AtomicU64::new(0x9E37_79B9_7F4A_7C15);
+static LOG: Mutex<Vec<LockEvent>> = Mutex::new(Vec::new());
+
+pub fn set_recording(enabled: bool) {
+    ENABLED.store(enabled, Ordering::SeqCst);
+}
+pub fn is_recording() -> bool {
+    ENABLED.load(Ordering::Relaxed)
+}
+pub fn set_delays(one_in: u64, seed: u64) {
+    DELAY_STATE.store(seed | 1, Ordering::SeqCst);
+    DELAY_ONE_IN.store(one_in, Ordering::SeqCst);
+}
+pub fn take_events() -> Vec<LockEvent> {
+    let mut log = LOG.lock().unwrap_or_else(|e| e.into_inner());
+    std::mem::take(&mut *log)
+}
+pub fn event_count() -> usize {
+    LOG.lock().unwrap_or_else(|e| e.into_inner()).len()
+}
+
+pub fn rank_of(type_name: &str) -> u8 {
+    // documented order (defs.rs): network controller 1, sockets 2, configs 3, blockchain 4,
+    // mempool 5, peers 6, wallet 7
+    if type_name.contains("NetworkController") {
+        1
+    } else if type_name.contains("Config") {
+        3
+    } else if type_name.ends_with("Blockchain") {
+        4
+    } else if type_name.ends_with("Mempool") {
+        5
+    } else if type_name.ends_with("PeerCollection") {
+        6
+    } else if type_name.ends_with("Wallet") {
+        7
+    } else {
+        0
+    }
+}
+
+fn current_task() -> u64 {
+    if let Some(id) = tokio::task::try_id() {
+        // tokio task ids are small integers; Display is the only stable accessor
+        return id.to_string().parse::<u64>().unwrap_or(u64::MAX >> 1);
+    }
+    use std::hash::{Hash, Hasher};
+    let mut hasher = std::collections::hash_map::DefaultHasher::new();
+    std::thread::current().id().hash(&mut hasher);
+    hasher.finish() | (1u64 << 63)
+}
+
+fn record(kind: u8, task: u64, write: bool, rank: u8, lock_id: u64, loc: &'static Location<'static>) {
+    let seq = SEQ.fetch_add(1, Ordering::SeqCst);
+    let mut log = LOG.lock().unwrap_or_else(|e| e.into_inner());
+    log.push(LockEvent {
+        seq,
+        task,
+        kind,
+        write,
+        rank,
+        lock_id,
+        file: loc.file(),
+        line: loc.line(),
+    });
+}
+
+async fn maybe_delay() {
+    let one_in = DELAY_ONE_IN.load(Ordering::Relaxed);
+    if one_in == 0 {
+        return;
+    }
+    // xorshift on a shared word; races only perturb the sequence
+    let mut x = DELAY_STATE.load(Ordering::Relaxed);
+    x ^= x << 13;
+    x ^= x >> 7;
+    x ^= x << 17;
+    DELAY_STATE.store(x, Ordering::Relaxed);
+    if x % one_in == 0 {
+        tokio::task::yield_now().await;
+        if x % (one_in * 4) == 0 {
+            std::thread::sleep(std::time::Duration::from_micros(50 + (x >> 40) % 200));
+        }
+    }
+}
+
+pub struct RwLock<T: ?Sized> {
+    rank: u8,
+    id: u64,
+    inner: tokio::sync::RwLock<T>,
+}
+
+pub struct RwLockReadGuard<'a, T: ?Sized> {
+    token: Option<(u64, u8, u64, &'static Location<'static>)>,
+    inner: tokio::sync::RwLockReadGuard<'a, T>,
+}
+
+pub struct RwLockWriteGuard<'a, T: ?Sized> {
+    token: Option<(u64, u8, u64, &'static Location<'static>)>,
+    inner: tokio::sync::RwLockWriteGuard<'a, T>,
+}
+
+impl<T> RwLock<T> {
+    pub fn new(value: T) -> RwLock<T> {
+        RwLock {
+            rank: rank_of(type_name::<T>()),
+            id: NEXT_LOCK_ID.fetch_add(1, Ordering::SeqCst),
+            inner: tokio::sync::RwLock::new(value),
+        }
+    }
+    pub fn into_inner(self) -> T {
+        self.inner.into_inner()
+    }
+}
+
+impl<T: ?Sized> RwLock<T> {
+    pub fn rank(&self) -> u8 {
+        self.rank
+    }
+
+    #[track_caller]
+    pub fn read(&self) -> impl Future<Output = RwLockReadGuard<'_, T>> + '_ {
+        let loc = Location::caller();
+        async move {
+            if !is_recording() || self.rank == 0 {
+                return RwLockReadGuard {
+                    token: None,
+                    inner: self.inner.read().await,
+                };
+            }
+            let task = current_task();
+            record(EV_TRY, task, false, self.rank, self.id, loc);
+            maybe_delay().await;
+            let inner = self.inner.read().await;
+            record(EV_ACQUIRED, task, false, self.rank, self.id, loc);
+            RwLockReadGuard {
+                token: Some((task, self.rank, self.id, loc)),
+                inner,
+            }
+        }
+    }
+
+    #[track_caller]
+    pub fn write(&self) -> impl Future<Output = RwLockWriteGuard<'_, T>> + '_ {
+        let loc = Location::caller();
+        async move {
+            if !is_recording() || self.rank == 0 {
+                return RwLockWriteGuard {
+                    token: None,
+                    inner: self.inner.write().await,
+                };
+            }
+            let task = current_task();
+            record(EV_TRY, task, true, self.rank, self.id, loc);
+            maybe_delay().await;
+            let inner = self.inner.write().await;
+            record(EV_ACQUIRED, task, true, self.rank, self.id, loc);
+            RwLockWriteGuard {
+                token: Some((task, self.rank, self.id, loc)),
+                inner,
+            }
+        }
+    }
+
+    pub fn get_mut(&mut self) -> &mut T {
+        self.inner.get_mut()
+    }
+}
+
+impl<T: Default> Default for RwLock<T> {
+    fn default() -> Self {
+        RwLock::new(T::default())
+    }
+}
+
+impl<T> From<T> for RwLock<T> {
+    fn from(value: T) -> Self {
+        RwLock::new(value)
+    }
+}
+
+impl<T: ?Sized + Debug> Debug for RwLock<T> {
+    fn fmt(&self, f: &mut Formatter<'_>) -> std::fmt::Result {
+        Debug::fmt(&self.inner, f)
+    }
+}
+
+impl<T: ?Sized> Deref for RwLockReadGuard<'_, T> {
+    type Target = T;
+    fn deref(&self) -> &T {
+        self.inner.deref()
+    }
+}
+impl<T: ?Sized> Deref for RwLockWriteGuard<'_, T> {
+    type Target = T;
+    fn deref(&self) -> &T {
+        self.inner.deref()
+    }
+}
+impl<T: ?Sized> DerefMut for RwLockWriteGuard<'_, T> {
+    fn deref_mut(&mut self) -> &mut T {
+        self.inner.deref_mut()
+    }
+}
+impl<T: ?Sized + Debug> Debug for RwLockReadGuard<'_, T> {
+    fn fmt(&self, f: &mut Formatter<'_>) -> std::fmt::Result {
+        Debug::fmt(&self.inner, f)
+    }
+}
+impl<T: ?Sized + Debug> Debug for RwLockWriteGuard<'_, T> {
+    fn fmt(&self, f: &mut Formatter<'_>) -> std::fmt::Result {
+        Debug::fmt(&self.inner, f)
+    }
+}
+impl<T: ?Sized> Drop for RwLockReadGuard<'_, T> {
+    fn drop(&mut self) {
+        if let Some((task, rank, id, loc)) = self.token.take() {
+            record(EV_RELEASED, task, false, rank, id, loc);
+        }
+    }
+}
+impl<T: ?Sized> Drop for RwLockWriteGuard<'_, T> {
+    fn drop(&mut self) {
+        if let Some((task, rank, id, loc)) = self.token.take() {
+            record(EV_RELEASED, task, true, rank, id, loc);
+        }
+    }
+}
+
+// ---------------------------------------------------------------------------------------------
+// Blockchain::validate step counter
+
+static VALIDATE_STEPS: AtomicU64 = AtomicU64::new(0);
+static VALIDATE_CAP: AtomicU64 = AtomicU64::new(u64::MAX);
+static VALIDATE_MAX_SEEN: AtomicU64 = AtomicU64::new(0);
+static VALIDATE_CALLS: AtomicU64 = AtomicU64::new(0);
+
+pub fn validate_begin(new_chain_len: usize, old_chain_len: usize) {
+    VALIDATE_STEPS.store(0, Ordering::SeqCst);
+    VALIDATE_CALLS.fetch_add(1, Ordering::SeqCst);
+    VALIDATE_CAP.store(
+        64 * (new_chain_len as u64 + old_chain_len as u64) + 1024,
+        Ordering::SeqCst,
+    );
+}
+pub fn validate_step() {
+    let steps = VALIDATE_STEPS.fetch_add(1, Ordering::SeqCst) + 1;
+    VALIDATE_MAX_SEEN.fetch_max(steps, Ordering::SeqCst);
+    if steps > VALIDATE_CAP.load(Ordering::SeqCst) {
+        panic!("saito_verif: validate loop exceeded step bound");
+    }
+}
+/// steps taken by the last `Blockchain::validate` call
+pub fn validate_steps() -> u64 {
+    VALIDATE_STEPS.load(Ordering::SeqCst)
+}
+pub fn validate_calls() -> u64 {
+    VALIDATE_CALLS.load(Ordering::SeqCst)
+}
